@@ -20,6 +20,11 @@ type c09Gen struct {
 	ids     int
 	loopVar []string // loop variables in scope
 	inLoop  int
+	// own: number of enclosing loops whose forloop is unambiguous at this point. Inside an
+	// {% empty %} branch there is no current position: Django renders it outside the loop,
+	// pongo2 inside a zeroed forloop - the property does not choose, so nothing is probed there
+	// and loops nested in the branch do not look further up than themselves.
+	own int
 }
 
 var c09Scalars = []string{"i0", "i1", "i5", "s0", "sx", "su", "t", "f", "nothing"}
@@ -123,13 +128,18 @@ func (g *c09Gen) node(depth int) MNode {
 		saved := g.loopVar
 		g.loopVar = append(append([]string{}, g.loopVar...), vars...)
 		g.inLoop++
+		g.own++
 		nd.Body = g.body(depth - 1)
 		nd.Body = append(nd.Body, MNode{K: "loopprobe", Field: g.loopField()})
+		g.own--
 		g.inLoop--
 		g.loopVar = saved
 		if drawBool(g.t, "empty") {
 			nd.HasAlt = true
-			nd.Alt = append(g.body(depth-1), MNode{K: "loopprobe", Field: g.loopField()})
+			savedOwn := g.own
+			g.own = 0
+			nd.Alt = g.body(depth - 1)
+			g.own = savedOwn
 		}
 		return nd
 	case "cycle":
@@ -161,6 +171,9 @@ func (g *c09Gen) node(depth int) MNode {
 		nd.Body = []MNode{g.leaf(), g.leaf()}
 		return nd
 	case "loopprobe":
+		if g.own == 0 {
+			return g.leaf()
+		}
 		return MNode{K: "loopprobe", Field: g.loopField()}
 	}
 	return g.leaf()
@@ -168,7 +181,14 @@ func (g *c09Gen) node(depth int) MNode {
 
 func (g *c09Gen) loopField() string {
 	f := pick(g.t, "lf", []string{"Counter", "Counter0", "Revcounter", "Revcounter0", "First", "Last"})
-	for j := drawInt(g.t, 0, 2, "parents"); j > 0; j-- {
+	maxParents := g.own - 1
+	if maxParents > 2 {
+		maxParents = 2
+	}
+	if maxParents < 0 {
+		maxParents = 0
+	}
+	for j := drawInt(g.t, 0, maxParents, "parents"); j > 0; j-- {
 		f = "Parentloop." + f
 	}
 	return f
@@ -197,6 +217,9 @@ func checkC09(c any, r *Rec) error {
 	want, werr := mmReference(cs.Root, nil, empty, cs.Ctx)
 	got, gerr, _, _ := mmEngine(cs.Root, nil, empty, cs.Ctx)
 	src := mmSrc(cs.Root)
+	if werr != nil && strings.HasPrefix(werr.msg, "opaque:") {
+		return skipf("%s", werr.msg)
+	}
 	if werr != nil {
 		return fmt.Errorf("reference interpreter failed: %s", werr.msg)
 	}
@@ -237,7 +260,7 @@ func checkC09(c any, r *Rec) error {
 
 var _ = register(&propSpec{
 	ID:   "C09.flow",
-	Rule: "nestings (depth <= 4) of if/elif*/else, ifequal/ifnotequal(+else), firstof, for (+empty, reversed, sorted, k,v over sorted maps), cycle (plain, as, silent) and ifchanged (with/without watched expressions, +else; only directly in a loop that runs once per render); bodies are markers, outputs of loop variables and every forloop field incl. Parentloop chains (also inside empty); data: int lists of length 0..6 with random contents, string lists, multi-byte strings, maps, nil, scalars (not iterable). Each case rendered once on a fresh compile and compared with a reference interpreter of the tree. Non-trivial: depth >= 2 or a for with modifier / empty; distinct by source+data.",
+	Rule: "nestings (depth <= 4) of if/elif*/else, ifequal/ifnotequal(+else), firstof, for (+empty, reversed, sorted, k,v over sorted maps), cycle (plain, as, silent) and ifchanged (with/without watched expressions, +else; only directly in a loop that runs once per render); bodies are markers, outputs of loop variables and every forloop field incl. Parentloop chains (not across an empty branch, where the property does not say what the current position is); data: int lists of length 0..6 with random contents, string lists, multi-byte strings, maps, nil, scalars (not iterable). Each case rendered once on a fresh compile and compared with a reference interpreter of the tree. Non-trivial: depth >= 2 or a for with modifier / empty; distinct by source+data.",
 	Gen: func(t *rapid.T) any {
 		g := &c09Gen{t: t}
 		var root []MNode
@@ -251,3 +274,54 @@ var _ = register(&propSpec{
 })
 
 func TestC09Flow(t *testing.T) { runProp(t, "C09.flow") }
+
+// ---- ifequal / ifnotequal are complementary, whatever the operands -------------------------
+
+type c09Compl struct {
+	A   ME  `json:"a"`
+	B   ME  `json:"b"`
+	Ctx Val `json:"ctx"`
+}
+
+func checkC09Compl(c any, r *Rec) error {
+	cs := c.(*c09Compl)
+	root := []MNode{
+		{K: "ifequal", E: &cs.A, E2: &cs.B, Body: []MNode{{K: "text", Text: "E"}}},
+		{K: "ifnotequal", E: &cs.A, E2: &cs.B, Body: []MNode{{K: "text", Text: "N"}}},
+		{K: "text", Text: "|"},
+		{K: "ifequal", E: &cs.A, E2: &cs.B, Body: []MNode{{K: "text", Text: "e"}}, HasAlt: true, Alt: []MNode{{K: "text", Text: "n"}}},
+		{K: "ifnotequal", E: &cs.A, E2: &cs.B, Body: []MNode{{K: "text", Text: "n"}}, HasAlt: true, Alt: []MNode{{K: "text", Text: "e"}}},
+	}
+	got, err, _, _ := mmEngine(root, nil, Val{K: "mapSA"}, cs.Ctx)
+	if err != nil {
+		return fmt.Errorf("%s: %v", mmSrc(root), err)
+	}
+	if got != "E|ee" && got != "N|nn" {
+		return fmt.Errorf("ifequal / ifnotequal are not complementary on (%s, %s): %q rendered %q (want E|ee or N|nn)", cs.A.Src(), cs.B.Src(), mmSrc(root), got)
+	}
+	r.NonTrivial(mmSrc(root))
+	return nil
+}
+
+var _ = register(&propSpec{
+	ID:   "C09.complement",
+	Rule: "ifequal and ifnotequal (with and without else) over the same two operands drawn from literals and context names of every kind incl. nil, undefined, lists, maps, bools, numerically equal ints of different Go types: exactly one of the two tags renders its body. No value is prescribed for the comparison itself. Every case is non-trivial.",
+	Gen: func(t *rapid.T) any {
+		g := &c09Gen{t: t}
+		names := []string{"nothing", "undefinedx", "l0", "l3", "m2", "t", "f", "i1", "u1", "s0", "sx", "f1"}
+		op := func(l string) ME {
+			if drawBool(t, l+"name") {
+				return ME{K: "name", N: pick(t, l, names)}
+			}
+			return g.scalar()
+		}
+		ctx := c09Ctx(t)
+		ctx.Ks = append(ctx.Ks, vStr("u1"), vStr("f1"))
+		ctx.E = append(ctx.E, vUintK("uint8", 1), vF64(1))
+		return &c09Compl{A: op("a"), B: op("b"), Ctx: ctx}
+	},
+	New:   func() any { return &c09Compl{} },
+	Check: checkC09Compl,
+})
+
+func TestC09Complement(t *testing.T) { runProp(t, "C09.complement") }
